@@ -231,6 +231,18 @@ def gen_program(kind: str, idx: int, seed: int) -> str:
 
 C03_FIXED = [
     """
+def q11(x: int, y: int) -> int:
+    s = 0
+    for i in range(f(0) % 7 - 3, g(0) % 9 - 4, h(0) % 3 + 1):
+        emit(i)
+        s = s * 3 + i
+    for k in range(x, y % 7 - 3, -(h(1) % 3) - 1):
+        emit(k)
+    for j in range(g(1) % 4):
+        s += j
+    return s
+""",
+    """
 def r0(x: int, y: int) -> int:
     xs = array(x, y, x + y)
     i = 0
